@@ -8,14 +8,21 @@ NOTES = ("All checks: bin/check <id>. Each run regenerates coq/Gen from /repo, r
 NOT_APPLICABLE = {}
 CLAIMED = {
     "C11": {
-        "text": "Theorems for the logic that does not need a semantics of Go: with pairwise distinct keys the flattening dispatcher sends a target's key to that target "
-                "and to nothing else; lowering a block's phi nodes to sequential assignments equals the parallel SSA semantics when no phi reads an earlier phi's "
-                "target, and is refuted for a swap (known finding F6); every operator admissible for a trash-block guard evaluates to false. Tied by a differential "
-                "catalogue of 15 //garble:controlflow functions (loops, branches, switch, range, defer/recover with traced side effects, closures, multiple/named "
-                "results, generics, methods, labels; max junk/splits, hardening) under several parameter sets and seeds against the regular build; a build error "
-                "counts as rejected. Partial: the CFG passes and ssa2ast's instruction templates are exercised, not proved.",
-        "note": "Trusted: Coq kernel; the differential catalogue samples functions, parameters and seeds. No axioms.",
-        "technique": "Coq proof of dispatcher/phi-lowering/trash-guard logic + differential execution of a control-flow function catalogue",
+        "text": "Theorems: each pass of internal/ctrlflow/transform.go - trash blocks, block splitting, junk jumps, flattening and its final shuffle - modelled as a "
+                "transformation of a control-flow graph (Model/Passes.v), and every sequence of these passes, preserves and reflects every run of the function: for every "
+                "graph, every interpretation of the function's own instructions and branch conditions, and every choice the pass makes (distinct non-zero dispatcher "
+                "keys, a false trash guard, a fresh phi variable), a fresh call returns or panics through the same instruction with the same program state, or diverges, "
+                "in the transformed function exactly when it does in the original (one general block-by-block simulation lemma instantiated per pass; composition by "
+                "induction over the pass list). The hypotheses are shown necessary (a zero key and a true trash guard are refuted). Also: dispatcher lookup, sequential "
+                "phi lowering equals the parallel semantics when independent and is refuted for a swap (known finding F6), admissible trash guards are false. Tied to "
+                "the code on every run: the injected oracle builds SSA as garble does and runs the real passes stage by stage on a catalogue and on generated "
+                "structured functions; each dumped graph is read as ssa2ast reads it, the pass's parameters are read off its output and Coq evaluates "
+                "passes_okb && cfg_eqb (apply_passes ps g) real (theorem C11_passes_checked_instance then gives equivalence for that instance); on a mismatch both graphs "
+                "are executed inside Coq under trace interpretations to exhibit a differing execution. Plus a differential catalogue of 16 //garble:controlflow "
+                "functions under several parameter sets and seeds against the regular build. Partial: ssa2ast's instruction templates and its reading of a block graph, "
+                "and the hardening of dispatcher keys, are exercised, not proved.",
+        "note": "Trusted: Coq kernel; the oracle dump and its reading in checks/cf_graph.py; the differential catalogue samples functions, parameters and seeds. No axioms.",
+        "technique": "Coq proof (simulation) that every control-flow pass and every pass sequence preserves and reflects runs + stage-by-stage graph correspondence with the real passes evaluated in Coq + differential execution",
     },
     "C03": {
         "text": "Theorems: emission in sorted key order is independent of the map iteration order (for every permutation); the obfuscator's PRNG seed is a function of "
@@ -59,10 +66,12 @@ CLAIMED = {
         "text": "Theorems: for every history of builds over a shared cache each output equals the cold build's, given that equal keys imply equal cold outputs; a "
                 "no-op rebuild recompiles nothing; garble's key input is injective in action id, binary id, GOGARBLE and flags (C12); every build-affecting flag "
                 "registered in main.go is written by appendFlags for build hashes (obligation over the regenerated source facts); the compile key is refuted "
-                "to be sound under -literals with -ldflags=-X (known finding F7) and proved sound without -literals. Tied by the translator and a history "
-                "runner: each step built on shared caches and from fresh caches, compared bit for bit. Partial: cmd/go's own keying is assumed.",
+                "to be sound under -literals with -ldflags=-X (known finding F7) and proved sound without -literals. Tied by the translator, by evaluating "
+                "the model's add_garble_to_hash (with the development's own SHA-256) inside Coq against the implementation's addGarbleToHash on random "
+                "configurations (seeds of 0, 8 and 9..24 bytes), by a probe that configurations differing in exactly one input get different build hashes, and "
+                "by a history runner: each step built on shared caches and from fresh caches, compared bit for bit. Partial: cmd/go's own keying is assumed.",
         "note": "Trusted: Coq kernel; translator; cmd/go's action keys; real builds. No axioms.",
-        "technique": "Coq proof of memoisation soundness + regenerated key-coverage obligation + build-history differential runs",
+        "technique": "Coq proof of memoisation soundness + regenerated key-coverage obligation + build-hash correspondence evaluated in Coq + build-history differential runs",
     },
     "C07": {
         "text": "Theorems: after any sequence of deletions, emptyings and truncations of an entry's index and data file the reader answers miss or the complete "
